@@ -7,6 +7,7 @@ import z3
 
 Z3_TIMEOUT_MS = int(os.environ.get('PYVC_Z3_TIMEOUT_MS', '10000'))
 CVC5_TIMEOUT_S = int(os.environ.get('PYVC_CVC5_TIMEOUT_S', '30'))
+EMATCH_FIRST_MS = int(os.environ.get('PYVC_EMATCH_FIRST_MS', '1'))   # 0 disables the E-matching-first attempt
 FEAS_TIMEOUT_MS = 1000
 
 stats = {'z3_queries': 0, 'z3_ms': 0.0, 'cvc5_queries': 0, 'cvc5_ms': 0.0, 'feas_queries': 0}
@@ -58,6 +59,23 @@ def prove(pc, goal, timeout_ms=None, want_model=True):
     """Discharge `pc ==> goal`.  Returns (verdict, backend, ms, model_or_reason)
     verdict in {'proved', 'refuted', 'undecided'}."""
     timeout_ms = timeout_ms or Z3_TIMEOUT_MS
+    quantified = any(has_quantifier(f) for f in pc) or has_quantifier(goal)
+    ms = 0.0
+    if quantified and EMATCH_FIRST_MS:
+        # quantified goals: a short pure E-matching attempt first (it either proves the goal quickly or
+        # gives up; it never answers sat), then the default strategy
+        s0 = z3.Solver()
+        s0.set('timeout', max(EMATCH_FIRST_MS, timeout_ms))
+        s0.set('auto_config', False)
+        s0.set('smt.mbqi', False)
+        s0.add(*pc)
+        s0.add(z3.Not(goal))
+        t0 = time.time()
+        r0 = s0.check()
+        ms = (time.time() - t0) * 1000
+        stats['z3_ms'] += ms
+        if r0 == z3.unsat:
+            return 'proved', 'z3-ematching', ms, None
     s = z3.Solver()
     s.set('timeout', timeout_ms)
     s.add(*pc)
@@ -65,14 +83,15 @@ def prove(pc, goal, timeout_ms=None, want_model=True):
     stats['z3_queries'] += 1
     t0 = time.time()
     r = s.check()
-    ms = (time.time() - t0) * 1000
-    stats['z3_ms'] += ms
+    ms1 = (time.time() - t0) * 1000
+    ms += ms1
+    stats['z3_ms'] += ms1
     if r == z3.unsat:
         return 'proved', 'z3', ms, None
     if r == z3.sat:
         return 'refuted', 'z3', ms, (s.model() if want_model else None)
     # unknown: second z3 strategy, pure E-matching (no model-based quantifier instantiation)
-    if any(has_quantifier(f) for f in pc) or has_quantifier(goal):
+    if quantified:
         s2 = z3.Solver()
         s2.set('timeout', timeout_ms)
         s2.set('auto_config', False)
